@@ -1,22 +1,34 @@
-(* C11 — RPM versions order as rpmvercmp does.                                INCOMPLETE.
-   Equality with the reference order: see TODO below.  This file states what already exists:
-   the reference order itself (Spec/Rpm.v, written from rpm's lib/rpmvercmp.c and rpmVersionCompare
-   independently of the Go code) with its laws and the property's own examples, and the
-   C03-style facts about the LIBRARY's Compare that are part of C11's wording (numeric
-   segments as integers, '~' before everything, post-release markers, epoch first).  They do
-   not add up to "Compare = rpmvercmp", and the unrestricted equality is FALSE: the library
-   sorts '1.0a' above '1.0.1' and '1.0^git1' above '1.0.1', the reference has them the other
-   way round (C11_rpm_differs_from_reference, computed) — so the coming theorem will be an
-   equality on a scope plus refutation witnesses, as for the other ecosystems.
+(* C11 — RPM versions order as rpmvercmp does.
+   Statements only; the proofs live in Eco/Rpm/SpecFacts.v, Spec/RpmFacts.v and
+   Eco/Rpm/VersionFacts.v.
 
-   Proofs live in Spec/RpmFacts.v and Eco/Rpm/VersionFacts.v. *)
-(* TODO: rpm_cmp_is_spec — to be added from Eco/Rpm/SpecFacts.v
-   (with rpm_accepts_spec_valid and the *_refuted witnesses outside its scope) *)
+   The reference is Spec/Rpm.v, written from rpm's lib/rpmvercmp.c and rpmVersionCompare
+   independently of the Go code: [rpmvercmp] on version strings, [rpm_cmp] on
+   [epoch:]version[-release]; [spec_valid] = non-empty version (and release, if present) over
+   [0-9A-Za-z._+~^]; [spec_cmp a b] = [Some (rpm_cmp a b)] on valid texts.
+
+   The property as worded is FALSE for the library (open finding F-rpm-not-rpmvercmp): the Go
+   code compares (non-digit run, digit run) pairs as dpkg does, which is a different algorithm.
+   What is proved is the equality on the complement of the finding's class.  The class is
+   "a side is outside the sub-grammar
+          [epoch:] D(.D)* [~ L+ D*] [- D [. L+ D*]]
+   (D a non-empty digit run, L a letter; epoch below 2^63)", recognised by [in_scope]
+   (C11_scope_def spells it out).  On that sub-grammar both algorithms reduce to the same
+   comparison of token lists, every text is reference-valid and accepted, and Compare IS the
+   reference order (C11_rpm_cmp_is_spec), digit runs of any length included.  Outside it the
+   library deviates through five mechanisms, one witness each (Part D): a letter run glued to
+   a number, '^', '_', a '~' inside a non-digit run, and a number against a word at the same
+   position (in the version and in the release field).
+
+   A  the reference: laws, token formulation, the property's examples
+   B  the library against the reference, on the sub-grammar
+   C  clauses of the property that hold for the library beyond the sub-grammar (C03-style)
+   D  outside the sub-grammar: the witnesses *)
 From Coq Require Import List NArith.
 From Verif.Base Require Import Bytes GoNum Ord.
 From Verif.Spec Require Rpm RpmFacts.
 From Verif.Eco Require Import Iface.
-From Verif.Eco.Rpm Require Version VersionFacts Entry.
+From Verif.Eco.Rpm Require Version VersionFacts Entry SpecFacts.
 Import ListNotations.
 
 (* ====================================================================== *)
@@ -65,7 +77,72 @@ Qed.
 Print Assumptions C11_reference_examples.
 
 (* ====================================================================== *)
-(* B. the library's Compare: the clauses proved so far                     *)
+(* B. the library against the reference, on the sub-grammar                 *)
+(* ====================================================================== *)
+
+(* the sub-grammar [epoch:] NUMS [~ WORD [D]] [- D [. WORD [D]]], layer by layer *)
+Theorem C11_scope_def :
+  (forall s : bytes,
+     Rpm.SpecFacts.in_scope s =
+     match split2_c ":"%char s with
+     | (e, Some rest) => nonempty_digits e && (digits_val e <? two63)%N && Rpm.SpecFacts.vr_ok rest
+     | (_, None) => Rpm.SpecFacts.vr_ok s
+     end) /\
+  (forall vr : bytes,
+     Rpm.SpecFacts.vr_ok vr =
+     match split2_c "-"%char vr with
+     | (v, None) => Rpm.SpecFacts.vfield_ok v
+     | (v, Some r) => Rpm.SpecFacts.vfield_ok v && Rpm.SpecFacts.rfield_ok r
+     end) /\
+  (forall v : bytes,
+     Rpm.SpecFacts.vfield_ok v =
+     match split2_c "~"%char v with
+     | (nums, None) => forallb nonempty_digits (split_c "."%char nums)
+     | (nums, Some g) => forallb nonempty_digits (split_c "."%char nums) && Rpm.SpecFacts.grp_ok g
+     end) /\
+  (forall r : bytes,
+     Rpm.SpecFacts.rfield_ok r =
+     match split2_c "."%char r with
+     | (d, None) => nonempty_digits d
+     | (d, Some g) => nonempty_digits d && Rpm.SpecFacts.grp_ok g
+     end) /\
+  (forall g : bytes,
+     Rpm.SpecFacts.grp_ok g =
+     (let (w, d) := span is_letter g in
+      negb (match w with [] => true | _ => false end) && all_digits d)).
+Proof. repeat split; reflexivity. Qed.
+Print Assumptions C11_scope_def.
+
+(* every text of the sub-grammar is valid for the reference ... *)
+Theorem C11_in_scope_spec_valid : forall s : bytes,
+  Rpm.SpecFacts.in_scope s = true -> Spec.Rpm.spec_valid s = true.
+Proof. exact Rpm.SpecFacts.in_scope_spec_valid. Qed.
+Print Assumptions C11_in_scope_spec_valid.
+
+(* ... and accepted by NewVersion *)
+Theorem C11_rpm_accepts_spec_valid : forall s : bytes,
+  Rpm.SpecFacts.in_scope s = true -> Spec.Rpm.spec_valid s = true ->
+  exists t, v_show Rpm.Entry.v s = Some t.
+Proof. exact Rpm.SpecFacts.rpm_accepts_spec_valid. Qed.
+Print Assumptions C11_rpm_accepts_spec_valid.
+
+(* Compare is the reference order *)
+Theorem C11_rpm_cmp_is_spec : forall a b : bytes,
+  Rpm.SpecFacts.in_scope a = true -> Rpm.SpecFacts.in_scope b = true ->
+  Spec.Rpm.spec_valid a = true -> Spec.Rpm.spec_valid b = true ->
+  v_cmp Rpm.Entry.v a b = Spec.Rpm.spec_cmp a b.
+Proof. exact Rpm.SpecFacts.rpm_cmp_is_spec. Qed.
+Print Assumptions C11_rpm_cmp_is_spec.
+
+(* the same without the (redundant) validity hypotheses *)
+Theorem C11_rpm_cmp_is_spec' : forall a b : bytes,
+  Rpm.SpecFacts.in_scope a = true -> Rpm.SpecFacts.in_scope b = true ->
+  v_cmp Rpm.Entry.v a b = Spec.Rpm.spec_cmp a b.
+Proof. exact Rpm.SpecFacts.rpm_cmp_is_spec'. Qed.
+Print Assumptions C11_rpm_cmp_is_spec'.
+
+(* ====================================================================== *)
+(* C. clauses that hold for the library beyond the sub-grammar             *)
 (* ====================================================================== *)
 
 (* dotted numerals ([numstr t] = the decimal numbers of t joined by "."), any magnitude:
@@ -117,8 +194,44 @@ Proof. exact Rpm.VersionFacts.c03_epoch. Qed.
 Print Assumptions C11_rpm_epoch.
 
 (* ====================================================================== *)
-(* C. the unrestricted equality is false (computed witnesses)              *)
+(* D. outside the sub-grammar the library is NOT rpmvercmp                 *)
 (* ====================================================================== *)
+
+(* one witness per mechanism: both texts reference-valid, the answers differ.
+   1 a letter run glued to a number   2 caret   3 underscore   4 a tilde inside a non-digit run
+   5, 6 number against word at the same position, in the version and in the release field *)
+Theorem C11_rpm_cmp_is_spec_refuted :
+  (Spec.Rpm.spec_valid $"1.0a" = true /\ Spec.Rpm.spec_valid $"1.0.1" = true /\
+   v_cmp Rpm.Entry.v $"1.0a" $"1.0.1" <> Spec.Rpm.spec_cmp $"1.0a" $"1.0.1") /\
+  (Spec.Rpm.spec_valid $"1.0^git1" = true /\ Spec.Rpm.spec_valid $"1.0.1" = true /\
+   v_cmp Rpm.Entry.v $"1.0^git1" $"1.0.1" <> Spec.Rpm.spec_cmp $"1.0^git1" $"1.0.1") /\
+  (Spec.Rpm.spec_valid $"1_0" = true /\ Spec.Rpm.spec_valid $"1.0" = true /\
+   v_cmp Rpm.Entry.v $"1_0" $"1.0" <> Spec.Rpm.spec_cmp $"1_0" $"1.0") /\
+  (Spec.Rpm.spec_valid $"1.0a~rc1" = true /\ Spec.Rpm.spec_valid $"1.0a" = true /\
+   v_cmp Rpm.Entry.v $"1.0a~rc1" $"1.0a" <> Spec.Rpm.spec_cmp $"1.0a~rc1" $"1.0a") /\
+  (Spec.Rpm.spec_valid $"1.0~1" = true /\ Spec.Rpm.spec_valid $"1.0~a" = true /\
+   v_cmp Rpm.Entry.v $"1.0~1" $"1.0~a" <> Spec.Rpm.spec_cmp $"1.0~1" $"1.0~a") /\
+  (Spec.Rpm.spec_valid $"1-1" = true /\ Spec.Rpm.spec_valid $"1-a" = true /\
+   v_cmp Rpm.Entry.v $"1-1" $"1-a" <> Spec.Rpm.spec_cmp $"1-1" $"1-a").
+Proof.
+  split; [exact Rpm.SpecFacts.rpm_cmp_is_spec_refuted_alpha_vs_num|].
+  split; [exact Rpm.SpecFacts.rpm_cmp_is_spec_refuted_caret|].
+  split; [exact Rpm.SpecFacts.rpm_cmp_is_spec_refuted_underscore|].
+  split; [exact Rpm.SpecFacts.rpm_cmp_is_spec_refuted_inner_tilde|].
+  split; [exact Rpm.SpecFacts.rpm_cmp_is_spec_refuted_num_vs_word|].
+  exact Rpm.SpecFacts.rpm_cmp_is_spec_refuted_num_vs_word_release.
+Qed.
+Print Assumptions C11_rpm_cmp_is_spec_refuted.
+
+(* in each pair a side is outside the sub-grammar *)
+Theorem C11_refuted_out_of_scope :
+  Rpm.SpecFacts.in_scope $"1.0a" = false /\ Rpm.SpecFacts.in_scope $"1.0^git1" = false /\
+  Rpm.SpecFacts.in_scope $"1_0" = false /\ Rpm.SpecFacts.in_scope $"1.0a~rc1" = false /\
+  Rpm.SpecFacts.in_scope $"1.0~1" = false /\ Rpm.SpecFacts.in_scope $"1-a" = false.
+Proof. exact Rpm.SpecFacts.refuted_out_of_scope. Qed.
+Print Assumptions C11_refuted_out_of_scope.
+
+(* the first two with the answers (computed): the property's own examples *)
 
 (* a numeric segment is newer than an alphabetic one, and '^' sorts before any further segment,
    in the reference; not in the library *)
